@@ -49,19 +49,16 @@
   yield retry loop (C07's bounded exception): retried at +1, +3, +7 …   C13_retry_enter, C13_retry_turn,
     ms after the start; gives up (cancels the call) at the first turn    C13_retry_bound, C13_retry_busy
     ≥ 60000 ms after the start = turn 16 = 65535 ms; meanwhile the
-    callee's handler is busy: its messages are not processed
+    callee's handler is busy: its messages are not processed (those of
+    a socket-attached session wait in `inbox`)
 
   NOTE on progressive call invocations (several CALL chunks under one request id).  `syncCall` arms a new
-  timer on EVERY chunk (with the first chunk's timeout) and overwrites the cancel function stored in the
-  invocation; the timer of an earlier chunk is never cancelled (`Ex.sProgT2`: two live timers, deadlines
-  100 and 150, for one call).  What the earlier timer can do is exactly `C13_timeout_effect` /
-  `C13_timeout_stale`: when it fires it posts `syncCancel(caller, request, killnowait, timeout)`, i.e.
-  * if that call is still pending it is ended THEN — at (first chunk's time + timeout), before the deadline
-    of the latest timer (`example` after `C13_timeout_effect`); this agrees with the property text iff "the
-    timeout" of a progressive call counts from its first CALL message, and then re-arming is pointless;
-  * if the call completed, it is a no-op — unless the caller has a NEW pending call under the same request
-    id at that moment, which then is timed out by the stale timer (only possible for a caller that re-uses
-    request ids, or after the 2^53 wrap-around).
+  timer on EVERY chunk that reaches the callee (with the first chunk's timeout) and overwrites the cancel
+  function stored in the invocation; before doing so it CANCELS the timer armed by the previous chunk
+  (dealer.go `if invk.timerCancel != nil { invk.timerCancel() }`; `C13_later_chunk_timer`, `Ex.sProgT2`: timer 1
+  cancelled, timer 2 live).  So "the timeout" of a progressive call invocation counts from its LATEST chunk, at
+  most one live timer exists per pending call, and no timer of a call stays live after the call completed
+  (`C13_timeout_cancelled_on_completion`).
 -/
 import Nexus.L2.Proofs.DealerRealm
 import Nexus.L2.Proofs.DealerTimer
@@ -240,7 +237,10 @@ example : forwardsTimeout Ex.env { Ex.regPlain with fwdTimeout := true, callees 
 
 /-- A later chunk of a pending progressive call (callee has room) arms a timer again, with the timeout of the
     FIRST chunk's options, unless the first chunk's registration forwards timeouts (`v0.fwdTimeout`, recorded in
-    the invocation); the previous timer stays in the table untouched. -/
+    the invocation); the timer recorded by the previous chunk (`v0.timer`) is CANCELLED first (dealer.go
+    `if invk.timerCancel != nil { invk.timerCancel() }`), so the call's timeout restarts with every chunk and at
+    most one live timer exists per pending call (`C13_timer_unique`).  Without a router-side timeout the timer
+    table is unchanged. -/
 theorem C13_later_chunk_timer {env : DEnv} {s : DState} {caller : SessKey} {req : Nat} {opts : Dict}
     (proc : String) (args : List WVal) (kw : Dict) (rnd : Nat) {iid : ReqId} {v0 : Invk}
     (hb : s.d.byCall? ⟨caller, req⟩ = some iid)
@@ -248,7 +248,8 @@ theorem C13_later_chunk_timer {env : DEnv} {s : DState} {caller : SessKey} {req 
     (hfi : s.d.findInv iid = some v0) (hf : env.full v0.callee = false) :
     (syncCall env s caller req opts proc args kw rnd).st.timers =
       (if optTimeout v0.options > 0 && !forwardsF env v0.fwdTimeout v0.callee
-       then s.timers ++ [newTimer env s caller req (optTimeout v0.options).toNat] else s.timers) := by
+       then (s.cancelTimer v0.timer).timers ++ [newTimer env s caller req (optTimeout v0.options).toNat]
+       else s.timers) := by
   rw [syncCall_later proc args kw rnd hprog hb hfi, laterChunk_ok caller req opts args kw iid hf]
   simp only
   unfold routerTimeoutF
@@ -258,12 +259,14 @@ theorem C13_later_chunk_timer {env : DEnv} {s : DState} {caller : SessKey} {req 
       have : optTimeout v0.options > 0 := by
         simp only [Bool.and_eq_true, decide_eq_true_eq] at hc; exact hc.1
       omega
-    rw [armTimer_pos hpos]
-    rfl
-  · rw [if_neg hc, if_neg hc, armTimer_zero]
+    rw [armTimer_pos hpos, preCancel_pos _ _ hpos]
+    simp only [newTimer, cancelTimer_nextTimer, cancelTimer_timers]
+  · rw [if_neg hc, if_neg hc, armTimer_zero, preCancel_zero]
 
-/-- two chunks, two live timers for one call; the invocation records the second -/
-example : Ex.sProgT2.timers.map (fun t => (t.id, t.deadline, t.canceled)) = [(1, 100, false), (2, 150, false)] := by
+/-- two chunks: the first chunk's timer (deadline 100) is cancelled by the second chunk, which arms timer 2
+    (deadline 150); the invocation records the second -/
+example : Ex.sProgT2.timers.map (fun t => (t.id, t.deadline, t.canceled)) = [(1, 100, true), (2, 150, false)] ∧
+    Ex.sProgT2.d.invs.map (·.timer) = [some 2] := by
   decide +kernel
 
 /-! ### timeouts: firing -/
@@ -310,12 +313,13 @@ theorem C13_timeout_effect {env : DEnv} {s : DState} (h : DealerInv s) {v : Invk
                  [callErr v.callId [] ErrTimeout [.str "<text>"] []] } :=
   C13_killnowait h hv hcan _ _
 
-/-- the EARLIER timer of the two-chunk call `Ex.sProgT2` fires at time 100: the call is ended then, although the
-    timer recorded in the invocation has deadline 150 -/
-example : (syncCancel Ex.env100 { Ex.sProgT2 with timers := Ex.sProgT2.timers.filter (fun y => y.id != 1) } 2 8
+/-- the timer of the two-chunk call `Ex.sProgT2` that is recorded in the invocation (timer 2, deadline 150) fires: the
+    call is ended; the first chunk's timer 1 (deadline 100) is cancelled and never due -/
+example : (syncCancel Ex.env100 { Ex.sProgT2 with timers := Ex.sProgT2.timers.filter (fun y => y.id != 2) } 2 8
       CancelModeKillNoWait ErrTimeout [.str "<text>"]).sends.map Ex.summary = [(1, 69, none, false), (2, 8, some 8, true)] ∧
-    (syncCancel Ex.env100 { Ex.sProgT2 with timers := Ex.sProgT2.timers.filter (fun y => y.id != 1) } 2 8
-      CancelModeKillNoWait ErrTimeout [.str "<text>"]).st.d.calls = [] := by decide +kernel
+    (syncCancel Ex.env100 { Ex.sProgT2 with timers := Ex.sProgT2.timers.filter (fun y => y.id != 2) } 2 8
+      CancelModeKillNoWait ErrTimeout [.str "<text>"]).st.d.calls = [] ∧
+    (Ex.sProgT2.timers.filter (fun t => !t.canceled && decide (t.deadline ≤ 100))).map (·.id) = [] := by decide +kernel
 
 /-- What a firing timer does otherwise — its (caller, request) is not pending (the call completed, or the timer
     is a stale one of an earlier chunk) or a kill-mode cancel is outstanding: nothing but leaving the table. -/
@@ -433,9 +437,15 @@ theorem C13_retry_bound (r : Realm) (x : Retry) (n : Nat) (hp : Realm.InPhase x 
     · exact ((C13_retry_turn r x 16 ⟨h1, h2, h3⟩ hnow).2.2 hag).2
     · rw [Realm.retryDue_ds, hout]
 
-/-- While the handler of `k` is in the retry loop, messages from `k` are not processed: `stepOp (.msg k m)` is the
-    identity (they wait in the transport; a departure is deferred likewise). -/
-theorem C13_retry_busy (r : Realm) (k : SessKey) (m : Msg) (hb : r.busy k = true) : r.stepOp (.msg k m) = r :=
+/-- While the handler of `k` is in the retry loop, messages from `k` are not processed: `stepOp (.msg k m)` changes
+    nothing but `inbox` — the message is appended there (it waits in the socket transport until the loop ends,
+    `C07Realm_inbox_released`) when `k` is an attached, not ending, `buffered` session; for a linked peer (not
+    `buffered`: the client cannot hand the message over) and for an unknown or ending session it is the identity.
+    A departure is deferred likewise. -/
+theorem C13_retry_busy (r : Realm) (k : SessKey) (m : Msg) (hb : r.busy k = true) :
+    r.stepOp (.msg k m) =
+      if ((r.clients.find? (fun c => c.key == k)).any (·.buffered) && !r.ending.contains k) = true
+      then { r with inbox := r.inbox ++ [(k, m)] } else r :=
   Realm.stepOp_msg_busy r k m hb
 
 end Nexus.C13
